@@ -66,6 +66,11 @@ partial def runCase {σ : Type} (m : Machine σ) (h out : IO.FS.Stream) (s : σ)
   let toks := tokens line
   match toks with
   | ["end"] => out.putStrLn "end"; return true
+  | ["dcalls"] =>
+    -- number of block-cipher *decryption* calls: the data paths of CFB, CFB-8, OFB, CTR, BelT-CTR are
+    -- defined from `Cipher.enc` alone, so the model's count is the constant 0
+    out.putStrLn "dcalls 0"
+    runCase m h out s
   | _ =>
     let r := m.step s toks
     out.putStrLn r.2
